@@ -342,7 +342,8 @@ def execute_factory(cfg):
             probe_addrs = range(0, 1 << AW, 1 << AL)
         else:
             top = 1 << AW
-            probe_addrs = sorted({0, 1 << AL, top - (1 << AL), top // 2, au(cursor, AL), au(cursor, AL) + (1 << AL)} - {top})
+            cur_ = cursor if isinstance(cursor, int) and cursor >= 0 else ref.cur
+            probe_addrs = sorted({0, 1 << AL, top - (1 << AL), top // 2, au(cur_, AL), au(cur_, AL) + (1 << AL)} - {top})
         for a in (() if retried else probe_addrs):
             try:
                 mm.add_resource(make_res(), name=(f"probe{a}",), size=1, addr=a)
